@@ -40,6 +40,7 @@ def showBal (l : Led) : String :=
 /-- `fresh = true` is the specification: every proposal is answered by a freshly created instance -/
 def step (fresh : Bool) (s : S) : List String → S × String
   | ["reset"] => (init, "ok")
+  | ["tracing", _] => (s, "ok")     -- a collector endpoint in the configuration: no effect on results
   | ["bal"] => (s, showBal s.led)
   | ["trace", _] => (s, "ok")
   | mode :: rest =>
